@@ -77,6 +77,12 @@ class C01(Spec):
     def batches(self, rng, tier):
         cases = [obj_case("&#27;[2J and &#155;31m and \x1b[2J", mt, [80]) for mt in MEDIA]
         cases.append(Case("problem", text_tokens("received invalid status line: HTTP/1.1 200 \x1b]0;pwn\x07\r\n"), {"problem": 1}))
+        # every attribute that can end up on the screen, each carrying control characters as references, alone (no fallback text)
+        for tag, attr in (("img", "src"), ("img", "alt"), ("video", "src"), ("audio", "src"), ("iframe", "src"), ("iframe", "title"), ("a", "href")):
+            for ref in ("&#27;[2J", "&#155;31m", "&#7;", "&#13;", "&#27;]0;x&#7;"):
+                body = "<%s %s=\"https://x.example/a%sb\">t</%s>" % (tag, attr, ref, tag)
+                cases.append(obj_case(body, "text/html", [80]))
+                cases.append(obj_case("<a href=\"https://l.example/\">" + body + "</a>", None, [20]))
         cases += self.gen(rng, 1200 if tier == "quick" else 50000)
         if tier == "thorough":
             seeds = ["<p>ab <b>cd</b> <a href=\"https://x.example/\">L</a></p>", "plain words here", "=> https://x.example/ label\n# h", "**md** [l](https://x.example/)"]
